@@ -331,9 +331,9 @@ def _nona(df, value = np.nan, edge = None):
     elif not is_pd(df): ## an array is cut at the positions of its first/last surviving row
         keep = np.where(~mask)[0]
         if edge == 1:
-            return df[:keep[-1] + 1]
+            return df[:keep[-1] + 1].copy()
         elif edge == -1:
-            return df[keep[0]:]
+            return df[keep[0]:].copy()
     elif edge == 1: ## cut only latest values
         return df_slice(df, ub = res.index[-1], openclose = '[]')
     elif edge == -1: ## cut only historic values
